@@ -279,7 +279,7 @@ SPEC_QUICK = [
     ("kern_pairs", 0, "F", [0, 9]), ("class0_column", 0, "F", [0, 1, 5, 9]), ("class0_column", 1, "N", [0, 5]),
     ("permuted", 0, "FNT", [0]), ("permuted", 1, "FN", [0]),
     ("devices", 0, "FNT", [0]), ("devices", 0, "F", [1, 5, 9]), ("devices", 0, "N", [5]),
-    ("varkern", 0, "FN", [0, 1, 5, 9]),
+    ("varkern", 0, "FN", [0, 1, 5, 9]), ("class_kern_v2", 0, "F", [0, 1, 2, 3, 5, 7, 9]), ("class_kern_v2", 0, "N", [2, 9]),
 ]
 SPEC_THOROUGH = [(n, s, "FNT", [0]) for n in ("kern_pairs", "class_kern", "ligatures", "multiple", "alternate", "markbase", "singlepos", "many_lookups")
                  for s in (1, 2)] + \
@@ -287,7 +287,7 @@ SPEC_THOROUGH = [(n, s, "FNT", [0]) for n in ("kern_pairs", "class_kern", "ligat
      ("kern_pairs", 0, "FNT", list(range(10))), ("class_kern", 1, "F", [5]), ("kern_pairs", 1, "N", [5]),
      ("class0_column", 0, "FNT", list(range(10))), ("class0_column", 1, "FNT", list(range(10))),
      ("permuted", 0, "FNT", [0, 5]), ("permuted", 1, "FNT", [0, 5]),
-     ("devices", 0, "FNT", list(range(10))), ("varkern", 0, "FNT", list(range(10)))]
+     ("devices", 0, "FNT", list(range(10))), ("varkern", 0, "FNT", list(range(10))), ("class_kern_v2", 0, "FNT", list(range(10)))]
 NOPACK = [("huge_chain_format3", "FNT"), ("huge_marklig", "FN"), ("huge_ligature_set", "F")]
 
 
@@ -305,7 +305,7 @@ def cases(tier, seed):
         cs.append({"id": "fea:" + name, "kind": "fea", "name": name, "seed": seed, "reps": "FNT", "levels": [0, 5] if not T else [0, 1, 5, 9],
                    "K": 40 if T else 18})
     for name, size, reps, levels in (SPEC_THOROUGH if T else SPEC_QUICK):
-        for variant in range(2 if (T and size == 1) else 3 if (T and name in ("devices", "varkern")) else 2 if name in ("devices", "varkern") else 1):
+        for variant in range(2 if (T and size == 1) else 3 if (T and name in ("devices", "varkern", "class_kern_v2")) else 2 if name in ("devices", "varkern", "class_kern_v2") else 1):
             for r in reps:
                 for lv in levels:
                     cs.append({"id": "spec:%s:s%d:%s:c%d%s" % (name, size, r, lv, ":v%d" % variant if variant else ""), "kind": "spec",
